@@ -117,4 +117,10 @@ def sortPeersByKeyAddr (target : Addr) (ps : List APeer) (expected : Nat) : Opti
   if closeGroupSize > ps.length then none
   else some ((((ps.map (fun p => (p, distSha target p.2))).mergeSort (fun a b => decide (a.2 ≤ b.2))).map (·.1)).take expected)
 
+/-- the number-level view of an address-level peer: its id and the `Distance` (XOR of the SHA-256 digests) to the target -/
+def toPeer (target : Addr) (p : APeer) : Peer := (p.1, distSha target p.2)
+
+/-- the comparison `sort_by(|a, b| a.1.cmp(&b.1))` makes on two peers of an address-level list -/
+def leAddr (target : Addr) (a b : APeer) : Bool := decide (distSha target a.2 ≤ distSha target b.2)
+
 end SafeNet.Distance
